@@ -69,8 +69,7 @@ func observeC01(c *Case, in *PacketIn, prev []byte) {
 		} else if writeRes(&c.O, uerr) {
 			writePacketObs(&c.O, fresh)
 		}
-		dirty := &rtp.Packet{}
-		try(func() { _ = dirty.Unmarshal(cloneBytes(prev)) })
+		dirty := caDirtyReceiver(c, prev)
 		if try(func() { uerr = dirty.Unmarshal(wire) }) {
 			c.O.Panic()
 		} else if writeRes(&c.O, uerr) {
@@ -133,6 +132,49 @@ func caGenPrev(c *Case) []byte {
 	q := genPacketWF(c.R, 40).Build()
 	b, _ := q.Marshal()
 	return b
+}
+
+// caDirtyReceiver prepares a REUSED receiver: it decoded `prev` before and, half of the time, was then
+// USED the way a decoded header is used before the next packet arrives — a few DelExtension /
+// SetExtension calls (an element removed from the middle of the list, a value replaced, an id added),
+// now and then followed by one more decode of another packet.  What C01 says about the next decode
+// does not depend on any of this, so the history is not part of the model's input (`prev` is, as the
+// first decode); it is drawn from the case's PRNG like everything else.
+func caDirtyReceiver(c *Case, prev []byte) *rtp.Packet {
+	d := &rtp.Packet{}
+	try(func() { _ = d.Unmarshal(cloneBytes(prev)) })
+	if c.R.Bool() {
+		return d
+	}
+	c.Tag("receiver=decoded+edited")
+	for i, n := 0, c.R.Pick(1, 1, 2, 3, 4); i < n; i++ {
+		ids := d.Header.GetExtensionIDs()
+		try(func() {
+			switch {
+			case len(ids) > 0 && c.R.Chance(2, 3):
+				// mostly not the last one: the elements behind it move up
+				k := c.R.Intn(len(ids))
+				if len(ids) > 1 && c.R.Bool() {
+					k = c.R.Intn(len(ids) - 1)
+				}
+				_ = d.Header.DelExtension(ids[k])
+			case len(ids) > 0 && c.R.Bool():
+				_ = d.Header.SetExtension(ids[c.R.Intn(len(ids))], c.R.Bytes(c.R.Pick(1, 2, 4, 16, 20)))
+			default:
+				_ = d.Header.SetExtension(uint8(c.R.Pick(0, 1, 5, 14, 15, 200)), c.R.Bytes(c.R.Pick(1, 2, 4, 16, 20)))
+			}
+		})
+	}
+	if c.R.Chance(1, 4) {
+		c.Tag("receiver=decoded+edited+decoded")
+		q := genPacketWFNarrow(c.R, 20).Build()
+		try(func() {
+			if b, err := q.Marshal(); err == nil {
+				_ = d.Unmarshal(b)
+			}
+		})
+	}
+	return d
 }
 
 // caTagged reports whether the case carries the tag.
@@ -400,6 +442,9 @@ func init() {
 				} else {
 					p = genPacketWF(c.R, maxPl)
 					caWithDupes(c, p)
+					if c.R.Chance(1, 10) && p.ShareStorage(c.R) {
+						c.Tag("values=windows-of-one-array")
+					}
 				}
 				tagPacket(c, p)
 				observeC01(c, p, caGenPrev(c))
@@ -428,8 +473,76 @@ func caFillDst(r *Rand, n, fill int) []byte {
 	return r.Bytes(n)
 }
 
+// c04InPlace prepares the IN-PLACE use of MarshalTo (zero-copy forwarding): the packet that is
+// marshalled was decoded from the very array the destination is a window of, so its extension values
+// and its payload point into the destination and every element is copied onto itself.  `edit`: the
+// image the receiver is decoded from differs from the packet in fixed fields (marker, payload type,
+// sequence number, timestamp, SSRC, CSRC values), which the caller rewrites after the decode — the
+// layout is the same.  Returns the image (nil when the description does not survive its own wire
+// form unchanged, e.g. a padding size without the flag: such packets are not marshalled in place).
+func c04InPlace(r *Rand, in *PacketIn, edit bool) (wire0 []byte) {
+	src := in.Build()
+	if edit {
+		src.Header.Marker = !src.Header.Marker
+		src.Header.PayloadType = uint8(r.Intn(128))
+		src.Header.SequenceNumber = uint16(r.Intn(65536))
+		src.Header.Timestamp = uint32(r.U64())
+		src.Header.SSRC = uint32(r.U64())
+		for i := range src.Header.CSRC {
+			src.Header.CSRC[i] = uint32(r.U64())
+		}
+	}
+	ok := false
+	try(func() {
+		b0, err := src.Marshal()
+		if err != nil {
+			return
+		}
+		probe := &rtp.Packet{}
+		if probe.Unmarshal(cloneBytes(b0)) != nil {
+			return
+		}
+		c04Rewrite(&probe.Header, in)
+		b1, err1 := in.Build().Marshal()
+		b2, err2 := probe.Marshal()
+		h1, err3 := in.Build().Header.Marshal()
+		h2, err4 := probe.Header.Marshal()
+		ok = err1 == nil && err2 == nil && bytes.Equal(b1, b2) && len(b0) == len(b1) &&
+			err3 == nil && err4 == nil && bytes.Equal(h1, h2)
+		wire0 = b0
+	})
+	if !ok {
+		return nil
+	}
+	return wire0
+}
+
+// c04Rewrite sets the fixed fields of a decoded header to those of the description.
+func c04Rewrite(h *rtp.Header, in *PacketIn) {
+	h.Marker, h.PayloadType, h.SequenceNumber = in.H.Marker, in.H.PayloadType, in.H.SequenceNumber
+	h.Timestamp, h.SSRC = in.H.Timestamp, in.H.SSRC
+	for i := range h.CSRC {
+		if i < len(in.H.CSRC) {
+			h.CSRC[i] = in.H.CSRC[i]
+		}
+	}
+}
+
 // observeC04 writes: size hsize marshal hmarshal pto pbuf hto hbuf
-func observeC04(c *Case, in *PacketIn, dst []byte) {
+//
+// inplace (0 no, 1 unmodified, 2 fixed fields rewritten): see c04InPlace; the destination's prior
+// content is then the packet's own wire image (cut to / continued beyond it by the given bytes).
+func observeC04(c *Case, in *PacketIn, dst []byte, inplace int) {
+	var wire0 []byte
+	if inplace != 0 {
+		if wire0 = c04InPlace(c.R, in, inplace == 2); wire0 != nil {
+			copy(dst, wire0)
+			c.Tag("dst=in-place")
+			if inplace == 2 {
+				c.Tag("dst=in-place,fixed-fields-rewritten")
+			}
+		}
+	}
 	writePacketIn(&c.I, in)
 	c.I.Bytes(dst)
 	pkt := in.Build()
@@ -463,30 +576,60 @@ func observeC04(c *Case, in *PacketIn, dst []byte) {
 		spare = c.R.Pick(1, 7, 300, 2000)
 		c.Tag("dst=window-with-spare-capacity")
 	}
+	// a zero-length destination is a literal nil slice half of the time (`var scratch []byte`: the
+	// lazy-sizing idiom starts with it), an empty non-nil slice otherwise: both are "shorter than
+	// MarshalSize()" whenever that is positive
+	nilDst := len(dst) == 0 && wire0 == nil && c.R.Bool()
+	if nilDst {
+		c.Tag("dst=nil")
+	}
+	// in place: the array holds the whole wire image (the receiver is decoded from it) also when the
+	// destination window is shorter; what lies beyond the window must stay as it was all the same
+	var beyond []byte
 	window := func() ([]byte, []byte) {
-		arena := make([]byte, len(dst)+spare)
+		used := len(dst)
+		if len(wire0) > used {
+			used = len(wire0)
+		}
+		arena := make([]byte, used+spare)
+		copy(arena, wire0)
 		copy(arena, dst)
-		for i := len(dst); i < len(arena); i++ {
+		for i := used; i < len(arena); i++ {
 			arena[i] = 0xC3
+		}
+		beyond = cloneBytes(arena[len(dst):])
+		if nilDst {
+			return nil, arena
 		}
 		return arena[:len(dst)], arena
 	}
-	intact := func(arena []byte) bool {
-		for i := len(dst); i < len(arena); i++ {
-			if arena[i] != 0xC3 {
-				return false
-			}
-		}
-		return true
-	}
+	intact := func(arena []byte) bool { return bytes.Equal(arena[len(dst):], beyond) }
 	pbuf, parena := window()
-	if try(func() { n, err = pkt.MarshalTo(pbuf) }) || !intact(parena) {
+	ppkt := pkt
+	if wire0 != nil {
+		ppkt = &rtp.Packet{}
+		if try(func() { err = ppkt.Unmarshal(parena[:len(wire0)]) }) || err != nil {
+			ppkt = nil // MarshalTo on it panics: reported as such
+		} else {
+			c04Rewrite(&ppkt.Header, in)
+		}
+	}
+	if try(func() { n, err = ppkt.MarshalTo(pbuf) }) || !intact(parena) {
 		c.O.Panic()
 	} else if writeRes(&c.O, err) {
 		c.O.Nat(n)
 	}
 	c.O.Bytes(pbuf)
 	hbuf, harena := window()
+	if wire0 != nil {
+		h := &rtp.Header{}
+		if try(func() { _, err = h.Unmarshal(harena[:len(wire0)]) }) || err != nil {
+			pkt = nil
+		} else {
+			c04Rewrite(h, in)
+			pkt = &rtp.Packet{Header: *h}
+		}
+	}
 	if try(func() { n, err = pkt.Header.MarshalTo(hbuf) }) || !intact(harena) {
 		c.O.Panic()
 	} else if writeRes(&c.O, err) {
@@ -634,7 +777,11 @@ func init() {
 										}
 										tagPacket(c, p)
 										n := c04Lengths(p.Build())[li]
-										observeC04(c, p, caFillDst(c.R, n, fill))
+										inplace := 0
+										if fill >= 4 {
+											inplace = fill - 3
+										}
+										observeC04(c, p, caFillDst(c.R, n, fill), inplace)
 									})
 								}
 							}
@@ -675,7 +822,7 @@ func init() {
 					}
 					c.Tag("every-length")
 					tagPacket(c, p)
-					observeC04(c, p, caFillDst(c.R, n, c.R.Pick(1, 2, 3)))
+					observeC04(c, p, caFillDst(c.R, n, c.R.Pick(1, 2, 3)), c.R.Pick(0, 0, 0, 1, 2))
 				})
 			}
 		}
@@ -712,7 +859,7 @@ func init() {
 							c.Tag("ext=large-block")
 							tagPacket(c, p)
 							n := p.Build().MarshalSize() + d
-							observeC04(c, p, caFillDst(c.R, n, c.R.Pick(0, 1, 2, 3)))
+							observeC04(c, p, caFillDst(c.R, n, c.R.Pick(0, 1, 2, 3)), c.R.Pick(0, 0, 1, 2))
 						})
 					}
 				}
@@ -731,6 +878,9 @@ func init() {
 				} else {
 					p = genPacketWF(c.R, maxPl)
 					caWithDupes(c, p)
+					if c.R.Chance(1, 10) && p.ShareStorage(c.R) {
+						c.Tag("values=windows-of-one-array")
+					}
 				}
 				tagPacket(c, p)
 				ls := c04Lengths(p.Build())
@@ -743,7 +893,7 @@ func init() {
 				default:
 					n = ls[c.R.Intn(len(ls))]
 				}
-				observeC04(c, p, caFillDst(c.R, n, c.R.Intn(4)))
+				observeC04(c, p, caFillDst(c.R, n, c.R.Intn(4)), c.R.Pick(0, 0, 0, 0, 0, 0, 1, 2))
 			})
 		}
 	})
@@ -1150,6 +1300,12 @@ func init() {
 					p.H.ExtensionProfile = uint16(c.R.Intn(65536))
 				}
 				caWithDupes(c, p)
+				// one packet in five: the values are windows into one shared array (same start with
+				// different lengths, overlapping, adjacent), as handed over by a caller who cuts them
+				// out of one scratch buffer
+				if c.R.Chance(1, 5) && p.ShareStorage(c.R) {
+					c.Tag("values=windows-of-one-array")
+				}
 				tagPacket(c, p)
 				mk := c.R.Intn(6)
 				c.Tag([]string{"mut=none", "mut=payload", "mut=csrc", "mut=extbyte", "mut=set", "mut=del"}[mk])
